@@ -15,6 +15,14 @@ TIMER = {'test': 'TestVerifTimer', 'comp': 'timer', 'quick': {'VERIF_N': 200, 'V
 ASND = {'test': 'TestVerifAssocSender', 'comp': 'as', 'pairs': True, 'quick': {'VERIF_N': 150, 'VERIF_OPS': 200},
         'thorough': {'VERIF_N': 600, 'VERIF_OPS': 300}, 'seeds': {'quick': 1, 'thorough': 8}}
 
+ARCV = {'test': 'TestVerifAssocReceiver', 'comp': 'ar', 'pairs': True, 'quick': {'VERIF_N': 60, 'VERIF_OPS': 150},
+        'thorough': {'VERIF_N': 400, 'VERIF_OPS': 250}, 'seeds': {'quick': 1, 'thorough': 8}}
+
+
+# graceful shutdown, direct drive: two established real associations, model Sd replayed line by line (C08)
+SDD = {'test': 'TestVerifShutdown', 'comp': 'sd', 'quick': {'VERIF_N': 400}, 'thorough': {'VERIF_N': 4000},
+       'seeds': {'quick': 1, 'thorough': 8}, 'corpus_glob': 'sd_*.ops'}
+
 # RACK / PTO / TLR scenario generator on the same direct-drive harness (go/harness/rack_test.go): every `as` op is followed by a
 # white-box `as rk` snapshot that Driver/Rack.lean compares with Model/Rack.lean (also on the lines of ASND)
 ARACK = {'test': 'TestVerifAssocRack', 'comp': 'as', 'pairs': True, 'quick': {'VERIF_N': 100, 'VERIF_OPS': 160},
@@ -34,7 +42,10 @@ E2E_T = e2e('transfer', 'TestVerifE2ETransfer')
 E2E_PR = e2e('pr', 'TestVerifE2EPR')
 E2E_SD = e2e('shutdown', 'TestVerifE2EShutdown')
 E2E_HS = e2e('handshake', 'TestVerifE2EHandshake', nq=384, nt=3000)
-E2E_RS = e2e('reset', 'TestVerifE2EReset')
+E2E_RS = dict(e2e('reset', 'TestVerifE2EReset'), corpus_glob='d*.ops')
+# stream reset, direct drive: two real established associations, packet histories, object handles; L0 model Rs
+RSD = {'test': 'TestVerifReset', 'comp': 'rs', 'quick': {'VERIF_N': 64}, 'thorough': {'VERIF_N': 400},
+       'seeds': {'quick': 1, 'thorough': 8}, 'corpus_glob': 'rs_*.ops'}
 E2E_API = e2e('api', 'TestVerifE2EAPI')
 E2E_TD = e2e('teardown', 'TestVerifE2ETeardown', nq=400, nt=2000)
 
@@ -57,15 +68,18 @@ CODEC = {'test': 'TestVerifCodec', 'comp': 'codec', 'quick': {'VERIF_N': 1500}, 
          'seeds': {'quick': 1, 'thorough': 4}}
 
 PROPS = {
-    'C05': {'jobs': [RQ]},
-    'C16': {'jobs': [GENF, RQ, ASND, ARACK]},
-    'C01': {'jobs': [REASM, ASND, E2E_T], 'assumptions': [
+    'C05': {'jobs': [RQ, ARCV]},
+    'C16': {'jobs': [GENF, RQ, ASND, ARACK, ARCV, RSD]},
+    'C01': {'jobs': [REASM, ASND, ARCV, E2E_T], 'assumptions': [
         'sender half (Props/C01wire.lean): payload BYTES are not in the sender model (lengths and fragment identity only); that a chunk carries the matching slice of the written buffer is observed by the e2e content hashes',
-        'component theorem: the association hands each TSN to the stream at most once (C05) and chunks are the sender\'s fragments',
+        'receive-side system theorem (C01_receiver_prefix): chunks are the fragments of the peer\'s messages (universe of Reasm.Sender per stream, fewer than 2^31 TSNs in all), reliable streams only (no FORWARD-TSN, no reset in the run)',
         'fewer than 2^15 ordered messages of a stream outstanding (SSN half-space; known finding D15); fewer than 2^31 TSNs/MIDs outstanding']},
-    'C11': {'jobs': [REASM], 'assumptions': [
-        'sum of len(userData) over all chunks ever pushed < 2^63 (uint64 counter / int conversion in subtractNumBytes)']},
-    'C02': {'jobs': [E2E_T, ARACK], 'rule': E2E_RULE, 'assumptions': [
+    'C11': {'jobs': [REASM, ARCV], 'assumptions': [
+        'sum of len(userData) over all chunks ever pushed < 2^63 (uint64 counter / int conversion in subtractNumBytes)',
+        'association level: credit formula over the streams REGISTERED in the association table (deviation D13: unread bytes of a reset stream are not counted); '
+        'C11_bytes_bound / C11_credit_formula_bounded assume buffer + 40000 x (largest chunk) < 2^32 (bytesQueued is a uint32) and fewer than 2^63 user bytes in total',
+        'receive-half model Model/Receiver.lean is hand-written; its straight-line tests are translator-generated; tied by replaying every op of TestVerifAssocReceiver']},
+    'C02': {'jobs': [E2E_T, ASND, ARACK], 'rule': E2E_RULE, 'assumptions': [
         'theorems (Props/C02rack.lean) are about the loss-recovery COMPONENT Model/Rack.lean (RACK, RACK timer, PTO, TLR gate), not about end-to-end liveness; the system-level claim stays with the e2e predicate',
         'Model/Rack.lean is hand-written control flow over translator-generated conditions and formulas (go/extract/exprs.go, block RACK / PTO / TLR); tied by comparing a white-box snapshot of the real Association with the model after EVERY op of the direct-drive harness (rk lines)',
         'environment of the component (quantified over in the theorems, computed from the sender model / RTO model in the driver): SRTT readings, inFastRecovery, t3RTX.isRunning() (taken from the log), pending-queue size, which chunks a gather (re)transmits and abandons; the clock is taken from the log',
@@ -75,13 +89,27 @@ PROPS = {
     'C06': {'jobs': [E2E_PR, E2E_T, E2E_API, REASM, ASND, ARACK], 'rule': E2E_RULE, 'assumptions': [
         'theorems (Props/C06rack.lean) cover ONE clause only: no loss-recovery path (RACK on SACK, RACK timer, PTO, T3 mark-all) flags an acknowledged or abandoned chunk for retransmission, on Model/Rack.lean (tied by the rk snapshots of the direct-drive harness); integrity / at-most-once / policy bounds remain e2e + Reasm + PolicySpec',
     ]},
-    'C07': {'jobs': [E2E_PR], 'rule': E2E_RULE},
-    'C08': {'jobs': [E2E_SD], 'rule': E2E_RULE},
+    'C07': {'jobs': [E2E_PR, ASND], 'rule': E2E_RULE},
+    'C08': {'jobs': [SDD, dict(E2E_SD, corpus_glob='e2e_*.ops')], 'assumptions': [
+        'theorems are about the L0 model Sd (two established endpoints + packet histories); the model is replayed line by line against two real established associations (TestVerifShutdown: real readLoop and real Shutdown call, write loop stepped explicitly, timers fired explicitly)',
+        'which DATA chunks a write-loop pass sends (cwnd, rwnd, MTU bundling, burst budget, T3 / fast-retransmit / RACK marks, stream scheduler) is an input of the model, quantified over in the theorems and read off the emitted packets in the replay',
+        'one DATA chunk per message; TSNs and acknowledgement points as offsets from the initial TSN (no wrap-around: C16); receive buffer never full, streams pre-opened, ackMode normal; ABORT only as sent by Abort(); no RECONFIG / FORWARD-TSN / HEARTBEAT traffic',
+        'C08_shutdown_ok_implies_delivered is full strength since the fix of D22 (Shutdown returns ErrShutdownIncomplete unless SHUTDOWN-ACK or SHUTDOWN-COMPLETE was received); transport failure, Close and Abort at any moment are operations of the model; a peer closed by an inbound ABORT reports EOF on its streams in the harness (the ABORT error in the real read loop)',
+        'liveness theorems are for the explicit schedules named in Props/C08.lean (every message count), not for arbitrary fair schedules; the e2e shutdown scenarios sample the rest under virtual time',
+        'one case (sd job) = one operation sequence from `sd new` to the next; (e2e job) = ' + E2E_RULE,
+    ]},
     'C04': {'jobs': [HSD, E2E_HS, E2E_T], 'assumptions': [
         'theorems are about the L0 model Hs (two endpoints + packet histories); the model is replayed line by line against two real associations driven by a packet shuffler (TestVerifHandshake)',
         'the blocking behaviour of Client/Server calls, T1 retry budget and connect failure are covered by the e2e handshake scenarios and by C19 theorems, not by the Hs model',
         'verification tags and ports are not part of the model (the implementation does not check inbound verification tags)']},
-    'C14': {'jobs': [E2E_RS], 'rule': E2E_RULE},
+    'C14': {'jobs': [RSD, E2E_RS], 'assumptions': [
+        'theorems are about the L0 model Rs (two established endpoints + packet histories, stream objects by handle); the model is replayed line by line against two real associations (TestVerifReset)',
+        'oracles (quantified over in the theorems, recorded from the real code in the harness): which pending entries leave the queue in one gatherOutbound call (congestion / flow control, scheduler), which sent chunks are retransmitted (T3, fast retransmit, RACK), whether a SACK is due',
+        'TSN / RSN / SSN / MID are natural numbers in Rs (no wrap-around; serial arithmetic is C16), initial TSNs are not 0, messages are unfragmented, the receive buffer is never full, fewer than 1000 deferred requests; where a run leaves this domain the model prints UNSUPPORTED',
+        'Rs keeps every performed request number; the exact rememberPerformedReset (trim above 2048 entries) is modelled separately (PerfSet) and the driver flags disagreement',
+        'C14_eof_after_data judges an identifier while the applications re-open it only in states where both directions were reset (Sys.quiet, evaluated on the real state by the harness as q=)',
+        'association shutdown / abort and blocking calls are outside the model (e2e reset scenarios cover them by exploration)',
+    ]},
     'C10': {'jobs': [ASND, ARACK, E2E_T], 'assumptions': [
         'TLR burst budget (Props/C10tlr.lean): theorems about tlrAllowSendLocked as generated (Model/Rack.lean), proved equal to the gate the sender model is replayed with; the budget/active oracle values of every gather are now CHECKED against Rack.tlrBudgetScaled, the RACK/PTO marks against the RACK model (rk lines); the bound is per gather - the code has no per-RTT accounting',
         'L0 model Model/Sender.lean is hand-written; its window tests / updates / congestion formulas / chunk sizes are translator-generated Gen.* defs; the rest is tied by comparing every op of the direct-drive harness',
@@ -97,16 +125,16 @@ PROPS = {
     ]},
     'C18': {'jobs': [E2E_API, E2E_SD], 'rule': E2E_RULE},
     'C09': {'jobs': [E2E_TD, E2E_SD, E2E_HS], 'rule': E2E_RULE},
-    'C19': {'jobs': [RTO, TIMER], 'assumptions': [
+    'C19': {'jobs': [RTO, TIMER, ARCV], 'assumptions': [
         'float64 arithmetic of rtoManager / calculateNextTimeout is proved over Rat; the Float instance is compared with the Go code bit for bit on sampled sequences',
         'timer automaton theorems assume fewer than 255 fired callbacks wait for the timer mutex at once (pending is a uint8; witness C19_pending_wrap_witness, known finding K19-pending-uint8)',
         'timeout() is modelled as atomic including the observer call; in Go the observer runs just after the timer mutex is released (with a zero interval consecutive reports can overtake each other)',
         'Go runtime timer semantics (Reset/Stop/AfterFunc) are the hand-written environment GoTimer; sampled under testing/synctest, callbacks delayed only through the harness gate',
         'retry-budget, Karn and start-uses-manager-RTO are syntactic facts about call sites (argument / guard text), not data-flow',
-        'association level (SACK immediacy, 200 ms bound per DATA packet, heartbeat round trip) is not part of this check yet',
+        'association level (Props/C19recv.lean): theorems about the receive-half model Model/Receiver.lean with the ack-timer automaton embedded; in the single-threaded model the timer callback runs at its deadline; the RTT estimator is not modelled',
     ]},
-    'C17': {'jobs': [PEND, HSD, E2E_HS, E2E_T], 'assumptions': [
-        'scheduler half only (pending_queue.go, scheduler factories); the negotiation half (chunk kinds, wrong-kind ABORT) is tied elsewhere',
+    'C17': {'jobs': [PEND, ARCV, HSD, E2E_HS, E2E_T], 'assumptions': [
+        'scheduler half (pending_queue.go, scheduler factories) plus the receive side of the negotiation half (wrong-kind chunk => protocol-violation ABORT, Props/C17recv.lean on Model/Receiver.lean); that each side SENDS the negotiated kind is C04/e2e',
         'WFQ theorems are over exact rationals; the Go code uses float64 (identical for power-of-two weights; X compares the Float instance bit for bit)',
         'a chunk pointer is never queued twice (fresh chunk per fragment), so chunkFinish[ptr] is modelled as a tag stored with the queue entry',
         'WFQ bound: statement = L_i/w_i + L_j/w_j; proved = that bound when no push falls between a peek and the pop of the chunk it selected '
@@ -119,7 +147,7 @@ PROPS = {
     'C13': {'jobs': [dict(CODEC, pviol_prefix=['C13-']), HSD, E2E_HS, E2E_T], 'assumptions': [
         'the CRC is uninterpreted in the theorems; the driver recomputes every checksum with its own bitwise CRC32c, '
         'which the harness compares with hash/crc32 on random strings']},
-    'C03': {'jobs': [dict(CODEC, pviol_prefix=['C03-']), ASND, E2E_PR], 'assumptions': [
-        'decoder part only (Props/C03dec.lean): panics are the explicit panic outcomes of the L0 model; '
-        'the harness runs every decode under recover() and a time box']},
+    'C03': {'jobs': [dict(CODEC, pviol_prefix=['C03-']), ASND, ARCV, E2E_PR], 'assumptions': [
+        'decoder part (Props/C03dec.lean) and receive half (Props/C03recv.lean): panics are the explicit panic outcomes of the L0 models; '
+        'the harnesses run every decode / every inbound packet under recover()']},
 }
